@@ -72,6 +72,77 @@ def model_values(eng, st, m):
         pass
     return out
 
+# ---------------------------------------------------------------------------- second solver
+# A sample of the final obligation queries is exported as SMT-LIB2 text and decided again by the cvc5 binary (a code base
+# that shares nothing with z3).  agree -> counted; cvc5 'unknown'/timeout/(error -> counted as undecided by the second solver
+# (not a verdict either way); a DIFFERENT verdict is a machinery error (the run exits 2), never a pass and never a finding.
+import os, subprocess
+XC_RATE = {'quick': (1, 8), 'thorough': (1, 2, 4, 8, 16, 32, 64, 128, 256, 512, 1024)}
+XC_MAXBYTES = 1500000
+def _xc_on(): return os.environ.get('VERIF_XCHECK', '1') != '0'
+_IEEE = {}
+def _ieee_fn(bits):
+    if bits not in _IEEE:
+        fs = z3.Float32() if bits == 32 else z3.Float64()
+        f = z3.Function('ieee%d' % bits, fs, z3.BitVecSort(bits)); x = z3.Const('x!ieee%d' % bits, fs)
+        _IEEE[bits] = (f, z3.ForAll([x], z3.fpBVToFP(f(x), fs) == x))
+    return _IEEE[bits]
+def _std_terms(asserts):
+    """z3's fp.to_ieee_bv is not SMT-LIB: replace it by an uninterpreted function with the axiom to_fp(ieee(x)) = x
+    (for a NaN both solvers are then free to pick any NaN pattern, which is z3's own 'unspecified' reading)."""
+    found = {}; seen = set(); stack = list(asserts)
+    while stack:
+        e = stack.pop()
+        i = e.get_id()
+        if i in seen: continue
+        seen.add(i)
+        if z3.is_app(e):
+            if e.decl().kind() == z3.Z3_OP_FPA_TO_IEEE_BV: found[i] = e
+            stack.extend(e.children())
+        elif z3.is_quantifier(e): stack.append(e.body())
+    if not found: return asserts, []
+    subs = []; ax = {}
+    for e in found.values():
+        f, a = _ieee_fn(e.size()); ax[e.size()] = a
+        subs.append((e, f(e.arg(0))))
+    # inner occurrences first would need a fixpoint; nested to_ieee_bv does not occur (a float is re-packed once), one pass is checked below
+    out = [z3.substitute(c, *subs) for c in asserts]
+    return out, list(ax.values())
+def smt2_of(pc, extra):
+    import re
+    A = list(pc) + ([extra] if extra is not None else [])
+    A, axioms = _std_terms(A)
+    s = z3.Solver()
+    for c in axioms + A: s.add(c)
+    txt = '(set-logic ALL)\n' + s.to_smt2()
+    return re.sub(r'\b(bv[us](?:div|rem|mod))_i\b', r'\1', txt)      # z3-internal names of the total division operators
+def second_solver(pc, extra, expect_sat, stats, tlimit_ms=8000):
+    """re-decide one query with cvc5; returns 'agree' | 'undecided' | 'disagree'"""
+    import time as _t
+    t = _t.time()
+    try:
+        txt = smt2_of(pc, extra)
+        if len(txt) > XC_MAXBYTES:
+            out = 'toolarge'
+        else:
+            r = subprocess.run(['cvc5', '--lang=smt2', '--tlimit=%d' % tlimit_ms], input=txt.encode(), capture_output=True, timeout=tlimit_ms / 1000 + 10)
+            o = r.stdout.decode('latin1'); e = r.stderr.decode('latin1')
+            first = o.strip().splitlines()[0].strip() if o.strip() else ''
+            out = 'error' if ('(error' in o or '(error' in e) else first
+            if out == 'error' and os.environ.get('VERIF_XC_DUMP'):
+                open(os.environ['VERIF_XC_DUMP'], 'w').write(txt + '\n; ' + o + e)
+    except Exception as ex:
+        out = 'error:%s' % type(ex).__name__
+    stats['xc_queries'] = stats.get('xc_queries', 0) + 1
+    stats['xc_s'] = stats.get('xc_s', 0.0) + (_t.time() - t)
+    if out in ('sat', 'unsat'):
+        if (out == 'sat') == bool(expect_sat):
+            stats['xc_agree'] = stats.get('xc_agree', 0) + 1; return 'agree'
+        stats.setdefault('xc_disagree', []).append('z3 says %s, cvc5 says %s' % ('sat' if expect_sat else 'unsat', out)); return 'disagree'
+    stats['xc_undecided'] = stats.get('xc_undecided', 0) + 1
+    k = out[:24]; d = stats.setdefault('xc_undecided_kinds', {}); d[k] = d.get(k, 0) + 1
+    return 'undecided'
+
 def decide(eng, st, obls, stats, maxcex=8):
     """discharge obligations under st.pc.  Returns list of (Obl, model) for the violated ones.
     stats: dict with counters 'obligations', 'discharged', 'trivial', 'solver_queries'"""
@@ -89,7 +160,11 @@ def decide(eng, st, obls, stats, maxcex=8):
     if not pend: return viol
     # one query for the disjunction first; only when it is sat look at the members
     stats['solver_queries'] += 1
-    m = eng.sc.check(st.pc, z3.Or(*[o.bad for o in pend]) if len(pend) > 1 else pend[0].bad)
+    disj = z3.Or(*[o.bad for o in pend]) if len(pend) > 1 else pend[0].bad
+    m = eng.sc.check(st.pc, disj)
+    n = stats['xc_n'] = stats.get('xc_n', 0) + 1
+    if _xc_on() and (m is not None or n in XC_RATE.get(os.environ.get('VERIF_TIER', 'quick'), (1, 8))):
+        second_solver(st.pc, disj, m is not None, stats)
     if m is None:
         stats['discharged'] += len(pend); return viol
     seen = set()
